@@ -1322,6 +1322,18 @@ func (env *Env) evalComposite(x *ast.CompositeLit, st *State, hint types.Type) V
 		if len(vals) == 0 {
 			vals = []string{"0"}
 		}
+		// fields serialised by encoding/json must hold valid UTF-8
+		if ts := c.e.typeSpecForSort(env.sortOf(t)); ts != nil && len(ts.UTF8) > 0 && !env.contract {
+			for i := 0; i < u.NumFields(); i++ {
+				for _, fn := range ts.UTF8 {
+					if u.Field(i).Name() == fn && env.sortOf(u.Field(i).Type()) == "Str" {
+						c.decls.declFun("str_utf8", []string{"Str"}, "Bool")
+						c.trust("encoding/json round-trips a string only if it is valid UTF-8 (precondition checked at the fields marked utf8)")
+						env.safety(st, "json-utf8/"+fn, app("str_utf8", vals[i]), x.Pos())
+					}
+				}
+			}
+		}
 		return Val{T: app("mk_"+env.sortOf(t), vals...), Ty: t}
 	case *types.Slice, *types.Array:
 		s := env.sortOf(t)
